@@ -326,7 +326,8 @@ def canon_auth(a):
 
 
 def canon_result(r):
-    return {"code": int(r.result_code), "matched_dn": r.matched_dn, "diag": r.diagnostics_message,
+    # .value, not int(): for result codes unknown to the library int(member) is 0 (see DESIGN 7, "noticed")
+    return {"code": int(getattr(r.result_code, "value", r.result_code)), "matched_dn": r.matched_dn, "diag": r.diagnostics_message,
             "referrals": None if r.referrals is None else list(r.referrals)}
 
 
